@@ -59,6 +59,38 @@ def generic_programs(ctx):
     return out
 
 
+NOFEAT_VARIANTS = {
+    # bin name -> (default-features, features, CosmosMsg kinds that exist in that build)
+    "nf_default": (True, [], ["bank", "wasm_exec", "wasm_inst", "staking", "distribution", "custom"]),
+    "nf_none": (False, [], ["bank", "wasm_exec", "wasm_inst", "custom"]),
+    "nf_stargate": (False, ["stargate"], ["bank", "wasm_exec", "wasm_inst", "ibc", "gov", "stargate", "custom"]),
+}
+
+
+def nofeat_bins(ctx):
+    """Stand-alone runners linked against sylvia built with other feature sets than the main corpus
+    (each in its own cargo invocation so that features are not unified with the other packages)."""
+    import os
+    from .families import _build, _emit_bins
+    ws = corpus.Workspace(ctx.label)
+    _emit_bins(ws, {}, {})
+    out = {}
+    for b, (dflt, feats, kinds) in NOFEAT_VARIANTS.items():
+        d = os.path.join(ws.root, "bins", b)
+        fl = ", ".join(f'"{f}"' for f in feats)
+        corpus.write_if_changed(os.path.join(d, "Cargo.toml"),
+                                f'[package]\nname = "{b}"\nversion = "0.0.0"\nedition = "2021"\n\n[[bin]]\nname = "{b}"\npath = "{corpus.VERIF}/svmon/nf_main.rs"\n\n'
+                                f'[dependencies]\nsylvia = {{ path = "{corpus.REPO}/sylvia", default-features = {"true" if dflt else "false"}, features = [{fl}] }}\n')
+        _emit_bins(ws, {}, {})
+        ok, diags, stderr, dt = _build(ws, [b])
+        if not ok:
+            ctx.violate(f"feature-build:{b}", f"sylvia does not build with default-features={dflt} features={feats}: {(diags[0]['message'] if diags else stderr[-200:])[:160]}",
+                        {"bin": b, "diagnostics": diags[:3]})
+            continue
+        out[b] = (ws.bin_path(b), kinds)
+    return out
+
+
 def get(ctx, fam):
     if fam == "alias":
         byb = alias_programs(ctx)
